@@ -217,3 +217,57 @@ Theorem C08_every_boundary_range_is_a_node :
     exists bc ec, ch_idx the_cfg t x = Some bc /\ ch_idx the_cfg t y = Some ec /\ rnode_ok t (mkRN bc ec x y).
 Proof. exact (byte_range_node the_cfg C08_facts_ok). Qed.
 Print Assumptions C08_every_boundary_range_is_a_node.
+
+(* ================================================================== C07's offset bookkeeping is C08's offset map
+   (Proofs/OffsetsLink.v).  Model/Normalize.v describes, on the code-point level, where each character of a plugin's
+   output comes from (`offsets_after t es`: a byte offset of the text t the plugin saw, per output character and for the
+   end).  For the byte-level batch `tr_edits t es` that Proofs/NormalizeBuffer.v derives from the same edits, the map that
+   `commit` builds, read at the byte offset of every character of the new text and at its end (the entries of
+   mod_c2b (cur s')), is exactly offsets_after looked up in the previous map -- for every buffer state satisfying the
+   invariant, hence also through stacked plugins; on a fresh buffer it is offsets_after itself. *)
+From SudachiVerif Require Proofs.OffsetsLink Proofs.NormalizeBuffer Model.Normalize Proofs.PipelineFull.
+From SudachiVerif Require Generated.NormalizeFacts.
+
+Theorem C08_offsets_after_is_m2o :
+  forall o t s es r s', wf_text o = true -> Reach the_cfg o s ->
+    cur s = PipelineFull.enc t -> Normalize.apply_edits t es = Some r ->
+    commit the_cfg s (NormalizeBuffer.tr_edits t es) = Ok s' ->
+    cur s' = PipelineFull.enc r /\
+    map (fun p => nth p (m2o s') 0) (mod_c2b (cur s'))
+    = map (fun x => nth (N.to_nat x) (m2o s) 0) (Normalize.offsets_after t es).
+Proof.
+  exact (fun o t s es r s' Hwf HR =>
+    OffsetsLink.offsets_after_is_m2o the_cfg C08_facts_ok o t s es r s' (reach_inv the_cfg C08_facts_ok o s Hwf HR)).
+Qed.
+Print Assumptions C08_offsets_after_is_m2o.
+
+Theorem C08_offsets_after_is_m2o_on_a_fresh_buffer :
+  forall t s0 es r s',
+    start_build the_cfg (PipelineFull.enc t) = Ok s0 -> Normalize.apply_edits t es = Some r ->
+    commit the_cfg s0 (NormalizeBuffer.tr_edits t es) = Ok s' ->
+    cur s' = PipelineFull.enc r /\
+    map (fun p => nth p (m2o s') 0) (mod_c2b (cur s')) = map N.to_nat (Normalize.offsets_after t es).
+Proof. exact (OffsetsLink.offsets_after_is_m2o_fresh the_cfg C08_facts_ok). Qed.
+Print Assumptions C08_offsets_after_is_m2o_on_a_fresh_buffer.
+
+(* for the three real plugins (facts about their source re-read on this run): after the plugin's own edits the text is the
+   encoding of its specification and the new map is the plugin's offsets_after composed with the old map *)
+Fact C08_normalize_facts_ok :
+  Generated.NormalizeFacts.slow_search_earliest = false /\ Generated.NormalizeFacts.lowercase_guard_is_uppercase = false /\
+  Generated.NormalizeFacts.path_guard_is_uppercase = false.
+Proof. vm_compute. repeat split; reflexivity. Qed.
+
+Theorem C08_plugin_offsets :
+  forall p o t s s', NormalizeBuffer.plugin_wf p -> wf_text o = true -> Reach the_cfg o s ->
+    cur s = PipelineFull.enc t ->
+    commit the_cfg s (NormalizeBuffer.tr_edits t (NormalizeBuffer.plugin_edits p t)) = Ok s' ->
+    cur s' = PipelineFull.enc (NormalizeBuffer.plugin_spec p t) /\
+    map (fun q => nth q (m2o s') 0) (mod_c2b (cur s'))
+    = map (fun x => nth (N.to_nat x) (m2o s) 0) (Normalize.offsets_after t (NormalizeBuffer.plugin_edits p t)).
+Proof.
+  exact (fun p o t s s' Hp Hwf HR Hc =>
+    OffsetsLink.offsets_after_is_m2o the_cfg C08_facts_ok o t s _ _ s' (reach_inv the_cfg C08_facts_ok o s Hwf HR) Hc
+      (NormalizeBuffer.plugin_apply (proj1 C08_normalize_facts_ok) (proj1 (proj2 C08_normalize_facts_ok))
+         (proj2 (proj2 C08_normalize_facts_ok)) p t Hp)).
+Qed.
+Print Assumptions C08_plugin_offsets.
